@@ -83,11 +83,27 @@ _SAFE_METHODS = {
 
 
 class Interp:
+    default_classes: dict[str, dict[str, ast.AST]] = {}
+
+    @staticmethod
+    def register_module_classes(mod) -> None:
+        """Make the methods of every class of an analysed module available to Records of that class."""
+        for name, cls in mod.classes.items():
+            if "." not in name:
+                Interp.default_classes[name] = {n.name: n for n in cls.body if isinstance(n, (ast.FunctionDef, ast.AsyncFunctionDef))}
+
     def __init__(self, env: dict[str, Any] | None = None, hooks: dict[str, Callable] | None = None, max_steps: int = 200_000):
         self.globals = dict(env or {})
         self.hooks = hooks or {}  # dotted callee name -> python callable (the rule's model of an external)
         self.steps = 0
         self.max_steps = max_steps
+        # class name -> {method name: FunctionDef}: methods/properties of analysed classes that a Record of that class may
+        # use on itself (`self.helper()`, `self.some_property`), so that "extract method" inside the class stays evaluable
+        self.classes: dict[str, dict[str, ast.AST]] = dict(Interp.default_classes)
+
+    def with_class(self, name: str, cls: ast.ClassDef) -> "Interp":
+        self.classes[name] = {n.name: n for n in cls.body if isinstance(n, (ast.FunctionDef, ast.AsyncFunctionDef))}
+        return self
 
     # ------------------------------------------------------------------ API
     def call_function(self, fn: ast.AST, args: dict[str, Any]) -> Any:
@@ -274,6 +290,15 @@ class Interp:
         if isinstance(obj, Record):
             if e.attr in obj.__dict__:
                 return obj.__dict__[e.attr]
+            fn = self.classes.get(obj._cls, {}).get(e.attr)
+            if fn is not None:
+                decos = {ast.unparse(d).split(".")[-1] for d in fn.decorator_list}
+                if decos & {"property", "cached_property"}:
+                    return self.call_function(fn, {"self": obj})
+                if decos - {"override"}:
+                    raise Unsupported(f"decorated method {obj._cls}.{e.attr}")
+                names = [p.arg for p in fn.args.posonlyargs + fn.args.args][1:]
+                return lambda *a, **k: self.call_function(fn, {"self": obj, **dict(zip(names, a)), **k})
             raise Unsupported(f"record {obj._cls} has no attribute {e.attr}")
         if isinstance(obj, ("".__class__, list, set, frozenset, dict, tuple)):
             allowed = _SAFE_METHODS.get(type(obj), set())
